@@ -160,8 +160,17 @@ func VerifC18WriteContract(n, forms int) {
 	dstIP, _ := verifAddr4("dst", forms/2%2)
 	sport, dport := verifU16("sport"), verifU16("dport")
 	verifOverride("github.com/insomniacslk/dhcp/dhcpv4/nclient4.checksum", verifChecksumContract)
-	f := udp4pkt(payload, &net.UDPAddr{IP: dstIP, Port: int(dport)}, &net.UDPAddr{IP: srcIP, Port: int(sport)})
+	// through the exported connection (not the internal frame builder, whose signature is the
+	// library's own business)
+	raw := &verifRawConn{}
+	conn := NewBroadcastUDPConn(raw, &net.UDPAddr{IP: srcIP, Port: int(sport)})
+	_, werr := conn.WriteTo(payload, &net.UDPAddr{IP: dstIP, Port: int(dport)})
 	verifOverride("github.com/insomniacslk/dhcp/dhcpv4/nclient4.checksum", nil)
+	verifAssert(werr == nil && len(raw.sent) == 1, "one-frame-per-datagram")
+	if len(raw.sent) != 1 {
+		return
+	}
+	f := raw.sent[0]
 	verifAssert(len(f) == 28+n, "frame-length")
 	if len(f) != 28+n {
 		return
@@ -355,5 +364,46 @@ func VerifC18WriteSeq(n1, n2, concurrent int) {
 	}
 	verifC18FrameOK(f1, p1, wsrc, wd1, sport, dp1)
 	verifC18FrameOK(f2, p2, wsrc, wd2, sport, dp2)
+	verifReach("end")
+}
+
+
+// VerifC18WriteRetarget: two datagrams written through one connection with ONE destination object
+// whose address is changed between the writes (callers reuse address objects); the UDP checksum of
+// each frame (checksum() summarised by its contract, as in VerifC18WriteContract) verifies against
+// the addresses that frame carries.
+func VerifC18WriteRetarget(n int) {
+	p1, p2 := verifBytes("payload", n), verifBytes("payload", n)
+	srcIP, _ := verifAddr4("src", 0)
+	d1, _ := verifAddr4("dst", 0)
+	d2, _ := verifAddr4("dst", 0)
+	sport, dport := verifU16("sport"), verifU16("dport")
+	raw := &verifRawConn{}
+	conn := NewBroadcastUDPConn(raw, &net.UDPAddr{IP: srcIP, Port: int(sport)})
+	dest := &net.UDPAddr{IP: d1, Port: int(dport)}
+	verifOverride("github.com/insomniacslk/dhcp/dhcpv4/nclient4.checksum", verifChecksumContract)
+	_, e1 := conn.WriteTo(p1, dest)
+	dest.IP = d2
+	_, e2 := conn.WriteTo(p2, dest)
+	verifOverride("github.com/insomniacslk/dhcp/dhcpv4/nclient4.checksum", nil)
+	verifAssert(e1 == nil && e2 == nil, "write-ok")
+	verifAssert(len(raw.sent) == 2, "one-frame-per-datagram")
+	if len(raw.sent) != 2 {
+		return
+	}
+	for i, f := range raw.sent {
+		verifAssert(len(f) == 28+n, "frame-length")
+		if len(f) != 28+n {
+			return
+		}
+		want := d1
+		if i == 1 {
+			want = d2
+		}
+		verifAssert(verifSame(f[16:20], want), "destination-address")
+		ck := uint64(f[26])<<8 | uint64(f[27])
+		total := verifWordSum(f[12:20]) + 17 + uint64(8+n) + verifWordSum(f[20:28]) + verifWordSum(f[28:])
+		verifAssert(verifOr(ck == 0, verifAnd(total%65535 == 0, total != 0)), "udp-checksum-verifies")
+	}
 	verifReach("end")
 }
